@@ -302,8 +302,8 @@ PROPS["C22"] = {
 PROPS["C17"] = {
     "title": "Any log tail is tolerated on open",
     "kani": [("kani/storage/wal.rs", r"^c17_")],
-    "e2": ["c17"],
-    "functions_encoded": ["wal::WalReader::next_record", "wal::Wal::append", "wal::WalRecord::decode_body"],
+    "e2": ["c17", "c02"],
+    "functions_encoded": ["wal::WalReader::next_record", "wal::Wal::append", "wal::WalRecord::decode_body", "wal::Wal::replay_committed_from_path"],
     "bounds": {"tail": "one record at the tail: length field, checksum field, body availability and checksum outcome symbolic",
                "decode_body": "record type byte concrete (all 17 + unknown), body lengths around each type's size thresholds, embedded "
                "length/count fields in {0,1,2,3,2^31,2^32-1}, all other bytes symbolic", "offset": "read offset <= 2^48"},
